@@ -373,8 +373,19 @@ func checkConstraintFamilies(w *World, r *Result) {
 				switch v := y.(type) {
 				case *ast.FuncLit:
 					return false
-				case *ast.RangeStmt, *ast.ForStmt:
-					return false // a break inside a nested loop leaves that loop only
+				case *ast.RangeStmt, *ast.ForStmt, *ast.SwitchStmt, *ast.TypeSwitchStmt, *ast.SelectStmt:
+					// an unlabelled break inside a nested loop or switch leaves that statement only
+					labelled := false
+					ast.Inspect(y, func(z ast.Node) bool {
+						if b, ok := z.(*ast.BranchStmt); ok && b.Label != nil && (b.Tok == token.BREAK || b.Tok == token.GOTO) {
+							labelled = true
+						}
+						return true
+					})
+					if labelled {
+						r.bad("AGR-C08b", fi.Name, f.call+": labelled exit in the loop over "+f.coll, w.Pos(y.Pos()), "a labelled break/goto may leave the constraint loop before every element was handled")
+					}
+					return false
 				case *ast.BranchStmt:
 					if v.Tok == token.BREAK || v.Tok == token.GOTO {
 						r.bad("AGR-C08b", fi.Name, f.call+": "+v.Tok.String()+" in the loop over "+f.coll, w.Pos(v.Pos()), "the loop stops at the first element that produces a constraint: the following guard columns / keys / comments of the same table get none")
